@@ -156,9 +156,6 @@ Proof.
     exists (S i), c0, lb, c'. replace (k + S i) with (S k + i) by lia. repeat split; auto.
 Qed.
 
-Lemma label_eq_dec (a b : label) : {a = b} + {a <> b}.
-Proof. decide equality. Defined.
-
 (** * The server invariant *)
 Definition sd_rank (p : sdpc) : nat :=
   match p with
@@ -581,4 +578,22 @@ Proof.
   destruct late_start_witness as [s|] eqn:E; [|discriminate E].
   exists s. split; [apply (follow_reachable scfg_unguarded [1; 1; 1; 1; 1; 1; 1; 1; 0; 0]); exact E|].
   injection E as <-. split; [reflexivity|]. eexists. split; [left; reflexivity|]. split; reflexivity.
+Qed.
+
+(** running Shutdown alone (used for non-vacuity) *)
+Fixpoint run_sd (n : nat) (s : sstate) : option sstate :=
+  match n with
+  | O => Some s
+  | S k => if s_panic s then None else
+           match shutdown_steps scfg_repo s with (_, t) :: _ => run_sd k t | [] => None end
+  end.
+Lemma run_sd_reachable : forall n s t, run_sd n s = Some t -> reachable (sstep scfg_repo) s t.
+Proof.
+  induction n as [|n IH]; intros s t H; cbn in H; [injection H as <-; apply reach_init|].
+  destruct (s_panic s) eqn:Ep; [discriminate H|].
+  destruct (shutdown_steps scfg_repo s) as [|[l u] rest] eqn:E; [discriminate H|].
+  eapply reachable_trans; [|apply IH; exact H].
+  eapply reach_step; [apply reach_init|]. unfold sstep, sstep_lbl. rewrite Ep.
+  apply in_map_iff. exists (l, u). split; [reflexivity|].
+  apply in_or_app; right. apply in_or_app; left. rewrite E. left. reflexivity.
 Qed.
